@@ -180,7 +180,18 @@ def runDrift (c : Case) : List String :=
   let pw : Nat → Nat → Float32 := fun y i => c.aux2.getD (4 * y + 1 + i) f32zero
   let offRow : Nat → Float32 := fun y => driftOffset [e 6, e 7, e 8] ax1 ax0.delta pw y
   let off : Array Float32 := ((List.range (n * nb)).map fun r => if r < n then offRow r else f32zero).toArray
-  ["case " ++ c.id, hexLine "off" off.toList] ++ kickOutputs "x" n it nb 0 off c.data
+  -- tracked particles: the drift is a kick along x whose displacement field is `off` (KickMap::applyTo, not overridden)
+  let partLines :=
+    if c.parts.isEmpty then [] else
+      let np := c.parts.size / 2
+      let res := (List.range np).foldl (fun (acc : List Float32) k =>
+        let px := c.parts.getD (2 * k) f32zero
+        let py := c.parts.getD (2 * k + 1) f32zero
+        match f32modf py with
+        | some (yi, yf) => acc ++ [applyToCoord n (fun i => off.getD i f32zero) px yi yf, py]
+        | none => acc ++ [Float32.ofBits 0x7fc00000, py]) []
+      [hexLine "parts" res]
+  ["case " ++ c.id, hexLine "off" off.toList] ++ kickOutputs "x" n it nb 0 off c.data ++ partLines
 
 instance : VarAcc Float32 where
   -- var = (float)((double)var + (double)proj * pow((double)d, 2))
